@@ -424,6 +424,7 @@ func (rp recvProp) runReal(c Case, who, smid string, n0 int, rng *rand.Rand) str
 	}
 	leaked := runtime.NumGoroutine() - base
 	if hang {
+		hungCases++ // a blocked receive loop: the run stops after three such cases (each costs its full time limit)
 		return fmt.Sprintf("hang leaked=%d", leaked)
 	}
 	quitClosed := false
